@@ -19,14 +19,14 @@ class WireC11(L.WirePart):
 
     def __init__(self):
         self.stats = dict(images=0, prefixes=0, prefix_events=0, corrupt_cases=0, corrupt_events=0,
-                          corrupt_verdict_agree=0, corrupt_verdict_differ=0)
+                          corrupt_verdict_agree=0, corrupt_verdict_differ=0, images_not_exhaustive=0, prefixes_skipped_after_96_aborts=0)
 
     def generate(self, rng, tier):
         n = self.nhist[0] if tier == "quick" else self.nhist[1]
         hs = []
         for i in range(n):
             fam = self.fams[i % len(self.fams)]
-            hs.append(L.gen_history(rng, tier, fam, c11_ops))
+            hs.append(L.gen_history(rng, tier, fam, c11_ops, max_lgk=(6 if tier == "quick" else 7)))
         if "theta" in self.fams:
             for i in range(1 if tier == "quick" else 6):
                 hs.append(width_history(rng, tier, c11_ops))
@@ -42,6 +42,8 @@ class WireC11(L.WirePart):
                 plan.append((self.img_model_line(d), self.img_expected(d), "full"))
                 img = bytes.fromhex(d["hex"]) if d["hex"] != "-" else b""
                 for path, (n, evs) in d["paths"].items():
+                    if path == "skipped":
+                        continue
                     for ln, oc in evs:
                         if oc.startswith("a ") and ln >= 0:
                             plan.append(("IMG %s %s %s" % (d["kind"], d["seed"], img[:ln].hex() or "-"), oc[2:], "prefix-accept"))
@@ -86,6 +88,8 @@ class WireC11(L.WirePart):
         bad = []
         for i, (op, o) in enumerate(zip(hist, impl_out)):
             w = op.split()
+            if o.strip() in ("no-such-object", "bad-op"):
+                continue      # malformed history (dangling object id, e.g. after delta debugging): says nothing about the library
             if w[0] == "trunc":
                 d = L.parse_trunc(o)
                 if d is None:
@@ -94,6 +98,8 @@ class WireC11(L.WirePart):
                 img = bytes.fromhex(d["hex"]) if d["hex"] != "-" else b""
                 npre = L.preamble_bytes(d["kind"], img)
                 for path, (n, evs) in d["paths"].items():
+                    if path == "skipped":
+                        continue
                     for ln, oc in evs:
                         if ln < 0:
                             continue
@@ -114,7 +120,7 @@ class WireC11(L.WirePart):
                         bad.append((key, "%s image with byte %d set to 0x%02x: %s on the %s path (image %s)" % (d["kind"], pos, val, oc[:100], path, d["hex"][:96]), i))
             elif o.strip() == "throw":
                 bad.append(("%s/unexpected-throw/%s" % (self.name, w[0]), op[:120], i))
-        return bad
+        return L.cap_unknown(bad, "C11")
 
     def nontrivial_key(self, hist, impl_out):
         # called once per history by the runner: also the place where the coverage figures are accumulated
@@ -124,6 +130,11 @@ class WireC11(L.WirePart):
             if d:
                 self.stats["images"] += 1
                 for path, (n, evs) in d["paths"].items():
+                    if path == "skipped":
+                        self.stats["images_not_exhaustive"] += 1
+                        self.stats["prefixes_skipped_after_96_aborts"] += n
+                        self.stats["prefixes"] -= n
+                        continue
                     self.stats["prefixes"] += n
                     self.stats["prefix_events"] += len(evs)
                 if len(d["hex"]) > 32:
@@ -136,26 +147,27 @@ class WireC11(L.WirePart):
                     self.stats["corrupt_cases"] += len(verd)
                     self.stats["corrupt_events"] += len(evs)
         if getattr(self, "_rep", None) is not None:
-            self._rep.cov.setdefault("c11", {})[self.name] = dict(self.stats, exhaustive=True)
+            self._rep.cov.setdefault("c11", {})[self.name] = dict(self.stats, exhaustive=(self.stats["images_not_exhaustive"] == 0),
+                                                                  note="per image every prefix length on every path; after 96 sanitizer aborts in one image the remaining lengths are sampled (every 16th, first 32, last 16)")
         return tuple(sorted(set(ks))) or None
 
 
 class ThetaPart(WireC11):
     name = "theta"
     fams = ("theta",)
-    nhist = (5, 80)
+    nhist = (5, 40)
 
 
 class TuplePart(WireC11):
     name = "tuple"
     fams = ("tf64", "ti64", "tstr", "tcst")
-    nhist = (6, 80)
+    nhist = (6, 40)
 
 
 class AodPart(WireC11):
     name = "aod"
     fams = ("aod",)
-    nhist = (3, 40)
+    nhist = (3, 20)
 
 
 PARTS = [ThetaPart(), TuplePart(), AodPart()]
